@@ -112,6 +112,12 @@ uper_open_type_get_simple(const asn_codec_ctx_t *ctx,
 	spd.buffer = buf;
 	spd.nbits = bufLen << 3;
 
+	if(!td->op->uper_decoder) {
+		/* PER is not defined for this type */
+		FREEMEM(buf);
+		ASN__DECODE_FAILED;
+	}
+
 	ASN_DEBUG_INDENT_ADD(+4);
 	rv = td->op->uper_decoder(ctx, td, constraints, sptr, &spd);
 	ASN_DEBUG_INDENT_ADD(-4);
@@ -165,6 +171,11 @@ uper_open_type_get_complex(const asn_codec_ctx_t *ctx,
 	pd->refill_key = &arg;
 	pd->nbits = pd->nboff;	/* 0 good bits at this point, will refill */
 	pd->moved = 0;	/* This now counts the open type size in bits */
+
+	if(!td->op->uper_decoder) {
+		/* PER is not defined for this type */
+		ASN__DECODE_FAILED;
+	}
 
 	ASN_DEBUG_INDENT_ADD(+4);
 	rv = td->op->uper_decoder(ctx, td, constraints, sptr, pd);
